@@ -149,7 +149,7 @@ package connect
 //@   use off_monotone()
 //@   use off_ge()
 //@ lemma percent_roundtrip(e seq, m seq): isEnc(e, m) && (forall b int :: {m[b]} 0 <= b && b < |m| ==> 0 <= m[b] && m[b] <= 255) ==> pdec(e, 0) == m
-//@   tags C18
+//@   tags C18, C02
 //@   use percent_roundtrip_at(e, m, 0)
 
 // ---------------------------------------------------------------------------
@@ -159,6 +159,7 @@ package connect
 //@ func NewError(c, underlying) res
 //@   tags C02, C06, C10, C15
 //@   ensures fresh(res) && res.code == c && res.err == underlying  // label: fields
+//@   ensures len(res.details) == 0 && res.meta == nil              // label: no-details-no-metadata
 //@   ensures forall t ref :: {Is(res, t)} Is(res, t) <==> (t == res || Is(underlying, t))   // label: unwraps-to-underlying
 //@   ensures asErr(res) == res && dtypeIs(res, "*Error")           // label: is-coded
 
@@ -1240,6 +1241,7 @@ package connect
 //@   ensures old(hget(trailer, "Grpc-Status")) == "" ==> res != nil && res.code == 13 && Is(res, errTrailersWithoutGRPCStatus)   // label: missing-status-is-internal
 //@   ensures isNum10(old(hget(trailer, "Grpc-Status"))) && val10(old(hget(trailer, "Grpc-Status"))) == 0 ==> res == nil   // label: every-numeric-zero-is-ok
 //@   ensures res == nil ==> old(hget(trailer, "Grpc-Status")) != "" && isNum10(old(hget(trailer, "Grpc-Status"))) && val10(old(hget(trailer, "Grpc-Status"))) == 0   // label: ok-only-with-a-zero-grpc-status   // tags: C04
+//@   ensures let st := old(hget(trailer, "Grpc-Status")) in old(hget(trailer, "Grpc-Status-Details-Bin")) == "" && isNum10(st) && 0 < val10(st) && val10(st) <= 4294967295 ==> res != nil && res.code == val10(st) && res.err != nil && errText(res.err) == pdec(old(hget(trailer, "Grpc-Message")), 0) && len(res.details) == 0   // label: without-binary-details-code-and-message-come-from-the-two-headers   // tags: C02
 //@   loop rangeindex:
 //@     invariant 0 - 1 <= rangeindex && rangeindex < |status.Details|
 
@@ -2042,3 +2044,18 @@ package connect
 //@   assigns out(cc.marshaler.envelopeWriter.writer)
 //@   ensures (err == nil) == (callres("(*envelopeWriter).Marshal", 1) == nil) && (err != nil ==> err == callres("(*envelopeWriter).Marshal", 1))   // label: the-marshaler's-verdict-is-returned
 //@   assert@call((*envelopeWriter).Marshal#1): arg1 == msg
+
+
+// ---------------------------------------------------------------------------
+// C02: what the sender's and the receiver's contracts give together for the
+// header path of the gRPC protocols (grpc-status / grpc-message), stated over
+// the spec functions both contracts use. The header values themselves travel
+// through net/http, which is outside the code.
+// ---------------------------------------------------------------------------
+
+// grpcErrorToTrailer writes dec(code) and an e with isEnc(e, message);
+// grpcErrorFromTrailer parses the status with ParseUint (isNum10 / val10) and
+// decodes the message with grpcPercentDecode (pdec(e, 0)).
+//@ lemma grpc_code_and_message_survive_the_headers(c int, m seq, e seq): 0 <= c && c <= 4294967295 && isEnc(e, m) && (forall b int :: {m[b]} 0 <= b && b < |m| ==> 0 <= m[b] && m[b] <= 255) ==> isNum10(dec(c)) && val10(dec(c)) == c && pdec(e, 0) == m
+//@   tags C02
+//@   use percent_roundtrip(e, m)
